@@ -7,5 +7,6 @@ import (
 	_ "verif/h/checks/c10"
 	_ "verif/h/checks/c16"
 	_ "verif/h/checks/c17"
+	_ "verif/h/checks/c17sim"
 	_ "verif/h/checks/shimtest"
 )
